@@ -185,12 +185,12 @@ class C18(Check):
                 cols = ['str', 'int', 'str', 'str']
             # the documented schema forms: list of (name, class), list of (name, type NAME), a typing.NamedTuple class, and no
             # schema at all (the header names the columns, every field is a string)
-            schema = ('classes', 'classes', 'classes', 'names', 'names', 'typed_namedtuple', 'typed_namedtuple', 'header')[(k // 3) % 8]
+            schema = rng.choice(('classes', 'classes', 'classes', 'names', 'names', 'typed_namedtuple', 'typed_namedtuple', 'header'))     # (drawn: the string / float classes below turn with k)
             if schema == 'header':
                 cols = ['str'] * len(cols)
-            yield {'cols': cols, 'sep': SEPS[k % len(SEPS)], 'esc': ESCS[(k // len(SEPS)) % 2], 'schema': schema,
+            yield {'cols': cols, 'sep': rng.choice(SEPS), 'esc': rng.choice(ESCS), 'schema': schema,       # (drawn: k % 7 also decides the column count)
                    'rows': {'n': rng.randint(1500, 4000) if big else rng.choice([0, 1, 2, 5, 20]),
-                            'skind': 'dense_unicode' if (big and (k // file_every) % 4 == 0) else skinds[k % len(skinds)], 'fkind': fkinds[(k // 2) % len(fkinds)],
+                            'skind': 'dense_unicode' if (big and (k // file_every) % 4 == 0) else skinds[k % len(skinds)], 'fkind': rng.choice(fkinds),
                             'rseed': rng.randrange(1 << 30)},
                    'mode': 'file' if is_file else 'stream',
                    'encoding': (None, 'utf-8')[(k // file_every) % 4 // 2] if is_file else None}
